@@ -1,1 +1,2 @@
 pub mod scancodes;
+pub mod layouts;
